@@ -166,6 +166,18 @@ TWINS += [
      "edits": [("explorerscript/ssb_converting/decompiler/write_handlers/label_jumps/if_start.py",
                 "        if op.params[param_idx] == 1:\n            return positive_form\n        if op.params[param_idx] == 0:\n            return f\"not {positive_form}\"\n        return self._if_header_as_operation(op)\n",
                 "        value = op.params[param_idx]\n        if value == 1:\n            return positive_form\n        elif value == 0:\n            return \"not \" + positive_form\n        else:\n            return self._if_header_as_operation(op)\n")]},
+    {"id": "twin-enlarge-extend", "what": "RoutineVisitor._enlarge_routine_info extends the three tables by the same count instead of appending in a loop",
+     "edits": [("explorerscript/ssb_converting/compiler/compiler_visitor/routine_visitor.py",
+                "            for i in range(0, needed):\n                self.routine_infos.append(None)  # type: ignore\n                self.routine_ops.append([])\n"
+                "                self.named_coroutines.append([])  # type: ignore\n",
+                "            self.routine_infos.extend([None] * needed)  # type: ignore\n            self.routine_ops.extend([] for _ in range(needed))\n"
+                "            self.named_coroutines.extend([] for _ in range(needed))  # type: ignore\n")]},
+    {"id": "twin-lexer-callback-action", "what": "the line-comment rule of the lexer emits the comment and its line break as two tokens through a callback action",
+     "edits": [("explorerscript/pygments/expslexer.py",
+                "KEYWORDS = (\n",
+                "def _line_comment(lexer, match):\n    text = match.group(0)\n    yield match.start(), Comment.Single, text[:-1]\n"
+                "    yield match.end() - 1, Text, text[-1:]\n\n\nKEYWORDS = (\n"),
+               ("explorerscript/pygments/expslexer.py", "            (r\"//.*?\\n\", Comment.Single),\n", "            (r\"//.*?\\n\", _line_comment),\n")]},
     {"id": "twin-call-exit-selection", "what": "CallWriteHandler selects the edge after the call with a loop instead of a comprehension",
      "edits": [("explorerscript/ssb_converting/decompiler/write_handlers/label_jumps/call.py",
                 "        if len(exits_after_call) > 0:\n            return exits_after_call[0].target_vertex\n",
